@@ -622,35 +622,76 @@ func c04NUMA(p *Prog, res *Result) {
 	res.check(okMem, "NUMA", fn.Name+" / a NUMA node's plans are limited by that node's free memory", p.pos(call), "doGetCPUPlans(…, available.NUMAMemory[id], …)", "the memory handed to the planner for a NUMA node is `"+exprStr(memArg)+"`, not that node's free memory: more instances are placed on the node than its memory holds")
 	// numaCPUMap is built from Capacity.NUMA with the available pieces of each core
 	if numaMapObj != nil {
-		okBuild := false
-		fn.inspectBody(func(n ast.Node) bool {
-			rs, ok := n.(*ast.RangeStmt)
-			if !ok || !strings.HasSuffix(exprStr(rs.X), ".Capacity.NUMA") || rs.Key == nil || rs.Value == nil {
-				return true
-			}
-			cpu, node := fn.objOf(rs.Key), fn.objOf(rs.Value)
-			ast.Inspect(rs.Body, func(x ast.Node) bool {
-				as, ok := x.(*ast.AssignStmt)
-				if !ok || len(as.Lhs) != 1 || len(as.Rhs) != 1 {
+		// built: for cpu, node := range <…>.Capacity.NUMA { M[node][cpu] = available<…>.CPUMap[cpu] }, with the text of an
+		// expression taken after replacing a helper's parameters by the arguments it is called with
+		built := func(fn *FuncNode, mapObj types.Object, textOf func(ast.Expr) string) bool {
+			okBuild := false
+			fn.inspectBody(func(n ast.Node) bool {
+				rs, ok := n.(*ast.RangeStmt)
+				if !ok || !strings.HasSuffix(textOf(rs.X), ".Capacity.NUMA") || rs.Key == nil || rs.Value == nil {
 					return true
 				}
-				// numaCPUMap[node][cpu] = available.CPUMap[cpu]
-				o, ok1 := unparen(as.Lhs[0]).(*ast.IndexExpr)
-				if !ok1 || fn.objOf(o.Index) != cpu {
+				cpu, node := fn.objOf(rs.Key), fn.objOf(rs.Value)
+				ast.Inspect(rs.Body, func(x ast.Node) bool {
+					as, ok := x.(*ast.AssignStmt)
+					if !ok || len(as.Lhs) != 1 || len(as.Rhs) != 1 {
+						return true
+					}
+					// numaCPUMap[node][cpu] = available.CPUMap[cpu]
+					o, ok1 := unparen(as.Lhs[0]).(*ast.IndexExpr)
+					if !ok1 || fn.objOf(o.Index) != cpu {
+						return true
+					}
+					in, ok2 := unparen(o.X).(*ast.IndexExpr)
+					if !ok2 || fn.objOf(in.X) != mapObj || fn.objOf(in.Index) != node {
+						return true
+					}
+					r, ok3 := unparen(as.Rhs[0]).(*ast.IndexExpr)
+					if ok3 && fn.objOf(r.Index) == cpu && strings.HasSuffix(textOf(r.X), ".CPUMap") && strings.HasPrefix(textOf(r.X), "available") {
+						okBuild = true
+					}
 					return true
-				}
-				in, ok2 := unparen(o.X).(*ast.IndexExpr)
-				if !ok2 || fn.objOf(in.X) != numaMapObj || fn.objOf(in.Index) != node {
-					return true
-				}
-				r, ok3 := unparen(as.Rhs[0]).(*ast.IndexExpr)
-				if ok3 && fn.objOf(r.Index) == cpu && strings.HasSuffix(exprStr(r.X), ".CPUMap") && strings.HasPrefix(exprStr(r.X), "available") {
-					okBuild = true
-				}
+				})
 				return true
 			})
-			return true
-		})
+			return okBuild
+		}
+		okBuild := built(fn, numaMapObj, func(e ast.Expr) string { return exprStr(e) })
+		if !okBuild {
+			// numaCPUMap := helper(resourceInfo.Capacity.NUMA, available.CPUMap): look into the helper
+			if def, _ := unparen(fn.singleDef(numaMapObj)).(*ast.CallExpr); def != nil {
+				if H := p.ByObj[fn.Callee(def)]; H != nil && H.Body != nil && H.Pkg == fn.Pkg {
+					argText := map[types.Object]string{}
+					for i, a := range def.Args {
+						if po := H.paramObj(i); po != nil {
+							argText[po] = exprStr(a)
+						}
+					}
+					textOf := func(e ast.Expr) string {
+						if id, ok := unparen(e).(*ast.Ident); ok {
+							if t, ok := argText[H.objOf(id)]; ok {
+								return t
+							}
+						}
+						return exprStr(e)
+					}
+					var retObj types.Object
+					nret := 0
+					inspectNoLit(H.Body, func(x ast.Node) bool {
+						if rt, ok := x.(*ast.ReturnStmt); ok {
+							nret++
+							if len(rt.Results) == 1 {
+								retObj = H.objOf(rt.Results[0])
+							}
+						}
+						return true
+					})
+					if nret == 1 && retObj != nil {
+						okBuild = built(H, retObj, textOf)
+					}
+				}
+			}
+		}
 		res.check(okBuild, "NUMA", fn.Name+" / the per-node core maps hold each core's AVAILABLE pieces under the node the capacity topology puts it in", p.pos(fn.Decl), "for cpu, node := range Capacity.NUMA { numaCPUMap[node][cpu] = available.CPUMap[cpu] }", "the per-node core maps are not filled with the available pieces of each core under its node of the capacity topology: used pieces are planned again, or cores land under the wrong node")
 	}
 	// every plan appended in the loop: labelled with id, and subtracted
